@@ -25,6 +25,7 @@ const (
 	fSchedule
 	fWarmup
 	fShotPanic
+	fProviderOnStop
 )
 
 var errInjected = stderrors.New("injected component failure")
@@ -57,6 +58,9 @@ func c05Scenario(fault int, withCancel bool) {
 	case fProvider:
 		prov.runErr = errInjected
 		prov.failAt = int(vConcretize(vNondetInt("failAt", 0, int64(m))))
+	case fProviderOnStop:
+		prov.runErr = errInjected
+		prov.failOnStop = true
 	case fAggregatorEarly:
 		aggr.runErr = errInjected
 		aggr.failEarly = true
@@ -149,11 +153,13 @@ func c05Scenario(fault int, withCancel bool) {
 			}
 		}
 	}
-	if fault == fProvider {
+	if fault == fProvider || fault == fProviderOnStop {
 		// the provider only fails if it got as far as failAt before being cancelled
 		injectedFired = prov.failed
 	}
-	if err == nil {
+	if err == nil && !callerCancelledBeforeReturn {
+		// (a caller that cancelled at the very moment the run completed may get nil: its cancel
+		// wins the race against a late component error; only uncancelled runs are judged here)
 		vCheck("E2.success.only.without.failure", !injectedFired)
 	}
 	if injectedFired && !callerCancelledBeforeReturn {
@@ -193,6 +199,9 @@ func HarnessC05Schedule()        { c05Scenario(fSchedule, false) }
 func HarnessC05Warmup()          { c05Scenario(fWarmup, false) }
 func HarnessC05ShotPanic()       { c05Scenario(fShotPanic, false) }
 func HarnessC05ProviderCancel()  { c05Scenario(fProvider, true) }
+
+// the provider fails at the very end: only when it is told to stop, after every instance finished
+func HarnessC05ProviderOnStop() { c05Scenario(fProviderOnStop, false) }
 
 // Two pools: one fails while the other still has work and would run until cancelled. The run
 // must report the failure, and the healthy pool must be stopped so that Engine.Wait returns.
